@@ -117,6 +117,10 @@ def summarize(body, blocks, end, env0=None, named_only=True):
                     p.events.append(('set', d['l'], res, bi))
             else:
                 p.events.append(('store', ev.place(d), res, bi))
+        elif 'assert' in t and str(t.get('msg', '')).startswith('BoundsCheck'):
+            # the success edge of a bounds check is a fact on that path (the failing edge panics); separate event kind so that
+            # rules iterating over conds are unaffected
+            p.events.append(('assert', ev.operand(t['assert']), bool(t.get('expected')), bi))
         elif 'switch' in t and nxt is not None:
             cond = ev.operand(t['switch'])
             labs = [lab for lab, tgt in switch_edges(body, bi) if tgt == nxt]
